@@ -33,7 +33,52 @@ Theorem C18_layout_deterministic : forall n1 n2 name1 name2 sas,
 Proof. exact layout_deterministic. Qed.
 Print Assumptions C18_layout_deterministic.
 
+(* ---- corners of the layout function.  The theorems above assume `sane` (sizes >= 0, alignments > 0); these say what
+   happens at the edges of that domain and that the model never leaves it. ---- *)
+
+(* an empty record has size 0 and alignment 1 (gcc's and ctypes' answer; checked against both in the correspondence) *)
+Theorem C18_layout_empty_record : struct_size [] = 0 /\ union_size [] = 0 /\ max_align [] = 1 /\ forall off, place off [] = ([], off).
+Proof. destruct empty_record as [A [B C]]. repeat split; auto. Qed.
+Print Assumptions C18_layout_empty_record.
+
+(* one member: offset 0, no padding before it *)
+Theorem C18_layout_single_member : forall s a, 0 < a -> fst (place 0 [(s, a)]) = [0] /\ snd (place 0 [(s, a)]) = s.
+Proof. exact single_member. Qed.
+Print Assumptions C18_layout_single_member.
+
+(* size-0 members (zero-length arrays, empty records) occupy nothing *)
+Theorem C18_layout_zero_size_member : forall off a r, 0 < a ->
+  place off ((0, a) :: r) = (align_up off a :: fst (place (align_up off a) r), snd (place (align_up off a) r)).
+Proof. exact zero_size_member. Qed.
+Print Assumptions C18_layout_zero_size_member.
+
+(* outside the domain the model has NO layout (fails closed): negative array lengths *)
+Theorem C18_layout_rejects_negative_arrays : forall envc envp n tc tp, n < 0 ->
+  c_sa envc (CArr n tc) = None /\ py_sa envp (PArr n tp) = None.
+Proof. intros. split; [now apply c_sa_negative_array | now apply py_sa_negative_array]. Qed.
+Print Assumptions C18_layout_rejects_negative_arrays.
+
+(* and inside it, every (size, alignment) either model computes for any type is sane, so the `sane` hypothesis of the
+   general theorems is always met by what the models feed to `place` *)
+Theorem C18_type_sizes_sane : forall env, env_sane env ->
+  (forall t s a, c_sa env t = Some (s, a) -> 0 <= s /\ 0 < a) /\
+  (forall m s a, c_member_sa env m = Some (s, a) -> 0 <= s /\ 0 < a) /\
+  (forall t s a, py_sa env t = Some (s, a) -> 0 <= s /\ 0 < a).
+Proof.
+  intros env He. repeat split; intros; try (eapply c_sa_sane; eauto; fail); try (eapply c_member_sa_sane; eauto; fail);
+    try (eapply py_sa_sane; eauto; fail).
+Qed.
+Print Assumptions C18_type_sizes_sane.
+
 (* ---- exhaustive, over the regenerated descriptions ---- *)
+
+(* every layout computed for the regenerated C records (unions included) and python classes is well-formed: members in
+   increasing, non-overlapping order inside the record, sizes >= 0, total size a multiple of the alignment *)
+Theorem C18_generated_layouts_wellformed :
+  all_wellformed (map cs_union c_structs) (c_layouts c_structs) = true /\
+  all_wellformed (map (fun _ => false) py_classes) (py_layouts (map (expanded_class tables0) py_classes)) = true.
+Proof. split; vm_compute; reflexivity. Qed.
+Print Assumptions C18_generated_layouts_wellformed.
 
 (* Every ctypes.Structure class of the package is mapped to a C record; both layouts are computable; every deviation
    of any member of any class from the C record (name / offset / size / kind / pointee or signature / missing member /
